@@ -95,6 +95,10 @@ def run : IO Unit := do
         out.putStrLn s!"T {tok} {p}"
       printed := sd.prov.length
       s := deleteEntities sd
+      -- run-time cross-check of the refinement set-up: the maps are exactly the recorded store operations applied
+      -- to the empty store (every mutation went through `St.exec`)
+      if decide (applySOps (St.init true).maps s.trace.reverse = s.maps) then pure ()
+      else out.putStrLn "bad-op trace does not reproduce the maps"
       out.putStrLn "Z"
     | _ =>
       match parseBlock w with
